@@ -24,6 +24,7 @@ Print Assumptions C09_order_indep.
 (* the empty map is 'no cell'; the optional-dictionary reference round-trips *)
 Theorem C09_empty : forall n, serialize_dict [] n = Ok None.
 Proof. reflexivity. Qed.
+Print Assumptions C09_empty.
 Theorem C09_maybe : forall oc b b' tb tr n, b_store_maybe_ref b oc = Ok b' ->
   exists hb hr, b_bits b' = b_bits b ++ hb /\ b_refs b' = b_refs b ++ hr /\
   s_load_dict (mkS (hb ++ tb) (hr ++ tr)) n =
